@@ -71,6 +71,20 @@ def run_euler(case, ctx):
     ctx.check(C0.shape == (3, 3) and np.abs(C0 - C[0]).max() <= 4 * EPS, 'form_single_mat_from_rph', '')
     Cl = ctx.sut(transform.mat_from_rph, a.tolist())
     ctx.check(np.array_equal(Cl, C), 'form_list_mat_from_rph', '')
+    # whole-degree angles as an integer array (stacked and single) and as a table: the same rotations as the float values
+    ai = np.rint(a).astype(np.int64)
+    Cri = np.asarray(R.dcm_from_rph(ai.astype(float), np.longdouble), float)
+    for tag, arg, ref in (('int_stack', ai, Cri), ('int_single', ai[0], Cri[0]), ('int_lists', ai.tolist(), Cri),
+                          ('frame', pd.DataFrame(a, columns=['roll', 'pitch', 'heading']), np.asarray(Cref, float))):
+        Ci = ctx.sut(transform.mat_from_rph, arg)
+        ei = np.abs(np.asarray(Ci, float) - ref).max() if np.shape(Ci) == np.shape(ref) else np.inf
+        ctx.check(ei <= 16 * EPS, f'form_{tag}_mat_from_rph', lambda: f'{tag}: |C - ref| = {ei:.3e} (shape {np.shape(Ci)})')
+    # the same array object with new contents gives the new rotation (no result remembered by identity)
+    buf = a[0].copy()
+    transform.mat_from_rph(buf)
+    buf[:] = a[-1]
+    Cb = ctx.sut(transform.mat_from_rph, buf)
+    ctx.check(np.abs(Cb - np.asarray(Cref[-1], float)).max() <= 16 * EPS, 'stale_after_inplace_change', 'mat_from_rph(buffer) after the buffer was overwritten in place')
     # convention pins evaluated on the library itself
     r, p, h = a[0]
     H = transform.mat_from_rph([0.0, 0.0, h])
